@@ -1,6 +1,6 @@
 """C15 — Neurolucida ASC conversion is faithful to the document (spec/Asc.tla)."""
 from harness import lib
-import io, os, tempfile
+import io, os, tempfile, shutil, atexit
 from harness import core, tlc
 
 RULE = ("documents = every token stream that the grammar-driven producer of MC_Asc emits within the bounds (points, split nesting, alternatives per "
@@ -78,13 +78,21 @@ def render(T, style):
     return "".join(out) + ("\n" if style % 2 else "")
 
 
+ASC_DIR = None
+
+
 def convert(text, api, cid):
     from swcgeom.transforms import NeurolucidaAscToSwc
     if api == 0:
         return NeurolucidaAscToSwc.from_stream(io.StringIO(text))
-    fd, p = tempfile.mkstemp(prefix="verif_asc_", suffix=".asc")
+    # every document is saved under one and the same path (a converter that remembers a path's earlier content shows)
+    global ASC_DIR
+    if ASC_DIR is None or not os.path.isdir(ASC_DIR):
+        ASC_DIR = tempfile.mkdtemp(prefix="verif_asc_")
+        atexit.register(shutil.rmtree, ASC_DIR, True)
+    p = os.path.join(ASC_DIR, "cell.asc")
     try:
-        with os.fdopen(fd, "w") as f:
+        with open(p, "w") as f:
             f.write(text)
         return NeurolucidaAscToSwc.convert(p) if api == 1 else NeurolucidaAscToSwc()(p)
     finally:
